@@ -108,6 +108,8 @@ struct M<'a> {
     amb: Option<&'static str>,
     /// the process just started fails its first wait(): reported as soon as the current control is over
     wait_fail_due: bool,
+    /// (arrival, the ticket its sender awaited before sending it)
+    after: Vec<(u32, u32)>,
 }
 
 impl<'a> M<'a> {
@@ -126,12 +128,28 @@ impl<'a> M<'a> {
             _ => None,
         }
     }
+    /// the sender of the next arrival awaited a ticket of its own first, and that ticket has not resolved yet
+    fn front_blocked(&self) -> bool {
+        match self.arrivals.front() {
+            Some((_, id, _)) => self.after.iter().any(|(a, pred)| a == id && self.outstanding.contains(pred)),
+            None => false,
+        }
+    }
     fn enqueue_arrivals_until(&mut self, t_incl: u64) {
         while let Some((t, _, _)) = self.arrivals.front() {
-            if *t > t_incl {
+            if *t > t_incl || self.front_blocked() {
                 break;
             }
             let (t, id, st) = self.arrivals.pop_front().unwrap();
+            if self.after.iter().any(|(a, _)| *a == id) && t == self.now {
+                // its sender was woken by a ticket at this very instant: whether the job task takes its next piece of
+                // work before or after that sender gets to run is a scheduling matter
+                let exit_ready = self.running_child().and_then(|k| self.children[k as usize].death).map(|d| d.0 <= self.now).unwrap_or(false);
+                let timer_ready = self.timer.map(|(d, _, _)| d <= self.now).unwrap_or(false);
+                if self.q.iter().any(|q| !q.is_empty()) || exit_ready || timer_ready {
+                    self.amb = Some("a sender woken by its ticket sends on at that very instant while other work is ready");
+                }
+            }
             if self.gone {
                 // ticket on a dead job: cancelled, resolves at once
                 self.out.push((t, Obs::Resolved { op: id }));
@@ -239,7 +257,7 @@ impl<'a> M<'a> {
         let now = self.now;
         let c = &mut self.children[k as usize];
         let nd = if os == 9 {
-            Some((now, 1009))
+            Some((now + c.spec.kill_lag, 1009))
         } else {
             match c.spec.on_signal {
                 SigReact::Ignore => None,
@@ -447,21 +465,63 @@ impl<'a> M<'a> {
     }
 }
 
-pub fn run_model(scn: &E1Scn) -> ModelResult {
-    if scn.senders.len() != 1 || scn.drop_handles {
-        return ModelResult::Ambiguous("outside the model's scope (several senders or dropped handles)");
+/// `out`: the recorded run. With one sender that never waits for its own tickets the arrival instants follow from the
+/// scenario alone; with several senders, or senders that await a ticket before sending on, the model takes the
+/// *observed* arrival instants and order (each send is one atomic step: logged, then queued) and predicts everything
+/// else from them.
+pub fn run_model(scn: &E1Scn, out: Option<&RunOut>) -> ModelResult {
+    if scn.drop_handles {
+        return ModelResult::Ambiguous("outside the model's scope (dropped handles)");
     }
-    let mut t = 0;
-    let mut arrivals = VecDeque::new();
-    for (i, st) in scn.senders[0].iter().enumerate() {
+    for st in scn.senders.iter().flatten() {
         if matches!(st.op, Op::RunStall { .. }) {
             return ModelResult::Ambiguous("stalled job task (slow-node fault) is not modelled");
         }
-        if st.inline {
-            return ModelResult::Ambiguous("inline-awaited steps are not modelled");
+        if st.cancel_after.is_some() || st.late_clone.is_some() {
+            return ModelResult::Ambiguous("cancelled / late-cloning waiters are not modelled");
         }
-        t += st.gap;
-        arrivals.push_back((t, E1Scn::op_id(0, i), st.clone()));
+    }
+    let mut arrivals = VecDeque::new();
+    let mut after: Vec<(u32, u32)> = Vec::new();
+    for (si, steps) in scn.senders.iter().enumerate() {
+        for i in 1..steps.len() {
+            if steps[i - 1].inline {
+                after.push((E1Scn::op_id(si, i), E1Scn::op_id(si, i - 1)));
+            }
+        }
+    }
+    let simple = scn.senders.len() == 1 && scn.senders[0].iter().all(|st| !st.inline);
+    if simple {
+        let mut t = 0;
+        for (i, st) in scn.senders[0].iter().enumerate() {
+            t += st.gap;
+            arrivals.push_back((t, E1Scn::op_id(0, i), st.clone()));
+        }
+    } else {
+        let Some(out) = out else {
+            return ModelResult::Ambiguous("several senders or awaited tickets: needs the recorded arrivals");
+        };
+        if out.hist.iter().any(|r| matches!(r.ev, Ev::Hung { .. })) {
+            return ModelResult::Ambiguous("a waiter was released by the 1 h watchdog");
+        }
+        let mut last: Option<(u64, u8)> = None;
+        for r in &out.hist {
+            if let Ev::CtlSend { sender, op, .. } = &r.ev {
+                // two senders at one instant: which send the job task saw first between two of its own steps is not
+                // something the documentation orders
+                if let Some((t, s)) = last {
+                    if t == r.t && s != *sender {
+                        return ModelResult::Ambiguous("two senders share an instant");
+                    }
+                }
+                last = Some((r.t, *sender));
+                arrivals.push_back((r.t, *op, scn.op(*op).clone()));
+            }
+        }
+        let sent = arrivals.len();
+        if sent != scn.senders.iter().map(|s| s.len()).sum::<usize>() {
+            return ModelResult::Ambiguous("a sender was left waiting (1 h watchdog): not every control was sent");
+        }
     }
     let mut m = M {
         scn,
@@ -484,6 +544,7 @@ pub fn run_model(scn: &E1Scn) -> ModelResult {
         gone: false,
         amb: None,
         wait_fail_due: false,
+        after,
     };
     let mut steps = 0;
     loop {
@@ -533,7 +594,7 @@ pub fn run_model(scn: &E1Scn) -> ModelResult {
         // idle: sleep until the next event
         let next_exit = m.running_child().and_then(|k| m.children[k as usize].death.map(|d| d.0));
         let next_timer = m.timer.map(|t| t.0);
-        let next_arrival = m.arrivals.front().map(|a| a.0);
+        let next_arrival = if m.front_blocked() { None } else { m.arrivals.front().map(|a| a.0.max(m.now)) };
         let cands: Vec<u64> = [next_exit, next_timer, next_arrival].iter().flatten().copied().collect();
         let Some(&next) = cands.iter().min() else { break };
         if cands.iter().filter(|c| **c == next).count() > 1 {
@@ -545,7 +606,12 @@ pub fn run_model(scn: &E1Scn) -> ModelResult {
         return ModelResult::Ambiguous(a);
     }
     // only tickets somebody awaits are observable
-    let observed: Vec<u32> = scn.senders[0].iter().enumerate().filter(|(_, s)| s.waiters > 0).map(|(i, _)| E1Scn::op_id(0, i)).collect();
+    let observed: Vec<u32> = scn
+        .senders
+        .iter()
+        .enumerate()
+        .flat_map(|(si, steps)| steps.iter().enumerate().filter(|(_, s)| s.waiters > 0 || s.inline).map(move |(i, _)| E1Scn::op_id(si, i)))
+        .collect();
     let mut out: Vec<(u64, Obs)> = m
         .out
         .into_iter()
@@ -704,7 +770,13 @@ pub fn gen_model_random(rng: &mut Rng) -> E1Scn {
         let k = rng.below(ALPHA + 3);
         let mut op = letter(k.min(ALPHA - 1), &mut sigs);
         match &mut op {
-            Op::StopSig { grace, .. } | Op::RestartSig { grace, .. } | Op::TryRestartSig { grace, .. } => *grace = *rng.pick(&graces),
+            Op::StopSig { grace, sig } | Op::RestartSig { grace, sig } | Op::TryRestartSig { grace, sig } => {
+                *grace = *rng.pick(&graces);
+                if rng.chance(1, 12) {
+                    // ForceStop as the "graceful" signal
+                    *sig = 9;
+                }
+            }
             Op::RunAsync { ms } => *ms = *rng.pick(&[0u64, 7, 31, 150]),
             Op::SetHook { async_ms: Some(ms) } => *ms = *rng.pick(&[3u64, 11, 45]),
             _ => {}
@@ -744,6 +816,38 @@ pub fn gen_model_random(rng: &mut Rng) -> E1Scn {
     E1Scn { family: "model-random".into(), grouped: false, session: false, children, spawn_fail, senders: vec![steps], drop_handles: false }
 }
 
+/// 2-3 senders on disjoint time grids (so that their sends rarely share an instant), some steps awaiting their own
+/// ticket before the sender goes on
+pub fn gen_model_multi(rng: &mut Rng) -> E1Scn {
+    let mut base = gen_model_random(rng);
+    let all: Vec<Step> = std::mem::take(&mut base.senders[0]);
+    let n = rng.range(2, 3) as usize;
+    let offsets = [0u64, 37, 61];
+    let mut senders: Vec<Vec<Step>> = vec![Vec::new(); n];
+    for st in all {
+        let k = rng.below(n as u64) as usize;
+        let mut st = st;
+        // each sender keeps to its own grid: multiples of 100 plus its offset
+        st.gap = match rng.below(4) {
+            0 => 0,
+            1 => 100,
+            2 => 300,
+            _ => 1000,
+        };
+        if senders[k].is_empty() {
+            st.gap += offsets[k];
+        }
+        if rng.chance(1, 4) && !matches!(st.op, Op::ToWait) {
+            st.inline = true;
+        }
+        senders[k].push(st);
+    }
+    senders.retain(|s| !s.is_empty());
+    base.senders = senders;
+    base.family = "model-multi".into();
+    base
+}
+
 pub struct C09;
 
 impl C09 {
@@ -776,6 +880,8 @@ impl Check for C09 {
             Tier::Quick => {
                 if idx < Self::quick_exh() {
                     exhaustive_scn(idx, 3)
+                } else if idx % 3 == 2 {
+                    Some(gen_model_multi(rng))
                 } else {
                     Some(gen_model_random(rng))
                 }
@@ -795,13 +901,22 @@ impl Check for C09 {
     }
     fn check(&self, scn: &E1Scn, out: &RunOut, stats: &mut Stats) -> Vec<Violation> {
         let mut vs = Vec::new();
-        match run_model(scn) {
+        match run_model(scn, Some(out)) {
             ModelResult::Ambiguous(why) => {
                 stats.hit("probe:scenario-tied-not-compared");
+                if scn.senders.len() > 1 {
+                    stats.hit("probe:several-senders-tied-not-compared");
+                }
                 let _ = why;
             }
             ModelResult::Trace(want) => {
                 stats.hit("probe:compared-with-model");
+                if scn.senders.len() > 1 {
+                    stats.hit("probe:several-senders-compared-with-model");
+                }
+                if scn.senders.iter().flatten().any(|s| s.inline) {
+                    stats.hit("probe:awaiting-sender-compared-with-model");
+                }
                 let got = observed_trace(scn, out);
                 stats.add("probe:observations-compared", want.len() as u64);
                 if want.iter().any(|(_, o)| matches!(o, Obs::SpawnFail { .. })) {
@@ -871,7 +986,7 @@ impl Check for C09 {
         shrink_e1(scn)
     }
     fn nontrivial(&self, scn: &E1Scn, out: &RunOut) -> bool {
-        !matches!(run_model(scn), ModelResult::Ambiguous(_)) && out.hist.iter().any(|r| matches!(r.ev, Ev::Spawn { .. }))
+        !matches!(run_model(scn, Some(out)), ModelResult::Ambiguous(_)) && out.hist.iter().any(|r| matches!(r.ev, Ev::Spawn { .. }))
     }
     fn rule(&self) -> String {
         "quick: every control sequence of length <= 3 over a 19-letter alphabet x {burst, settled} x 6 child behaviour classes x 6 fault plans (none; first or second spawn fails; first kill, signal or wait on the first process fails), then seeded-random sequences of length 2-30 (thorough: length <= 4 under four schedule seeds, then random); each run under a seeded scheduling policy. distinct = distinct hash of the recorded history; non-trivial = the scenario is tie-free (so it was compared observation by observation with the reference model) and spawned at least one child".into()
